@@ -570,6 +570,7 @@ func (gen *Generator) GenerateInclude(args []Sexp) error {
 
 	var err error
 	var exps []Sexp
+	nfiles := 0
 
 	var sourceItem func(item Sexp) error
 
@@ -596,6 +597,17 @@ func (gen *Generator) GenerateInclude(args []Sexp) error {
 				return err
 			}
 
+			// the include form has one value, that of the last file:
+			// drop the value of the file before, and give an empty
+			// file the value nil.
+			if nfiles > 0 {
+				gen.AddInstruction(PopInstr(0))
+			}
+			nfiles++
+			if len(exps) == 0 {
+				gen.AddInstruction(PushInstr{SexpNull})
+				return nil
+			}
 			err = gen.GenerateBegin(exps)
 			if err != nil {
 				return err
@@ -613,6 +625,9 @@ func (gen *Generator) GenerateInclude(args []Sexp) error {
 		if err != nil {
 			return err
 		}
+	}
+	if nfiles == 0 {
+		gen.AddInstruction(PushInstr{SexpNull})
 	}
 
 	return nil
